@@ -73,6 +73,16 @@ pub struct Case {
     /// are the ones the pattern resolves to NOW, and the archives under the earlier names are nobody's business
     #[serde(default)]
     pub env_switch_before: Option<u8>,
+    /// the rolled file is a symbolic link (`current.log -> data/app-3.log`): the link is what gets archived (reading
+    /// the archive gives the content), the file it points to is a bystander
+    #[serde(default)]
+    pub active_symlink: bool,
+    /// the window is this wide instead (33-70 slots)
+    #[serde(default)]
+    pub wide: Option<u32>,
+    /// bystanders whose names are the pattern with something that merely looks like an index: 007, +3, 03, "3 ", 0x3 ...
+    #[serde(default)]
+    pub lookalikes: bool,
 }
 
 /// `\xHH` escapes in a generated name stand for raw bytes (file names that are not valid UTF-8)
@@ -124,9 +134,10 @@ pub fn strategy() -> impl Strategy<Value = Case> {
         prop::collection::vec((any::<u16>(), content()), 0..=3),
         prop::collection::vec(content(), 1..=10),
         any::<u16>(),
-        (prop::bool::weighted(0.2), prop::option::weighted(0.08, (any::<u64>(), 70_000u32..400_000)), prop::bool::weighted(0.3), prop_oneof![3 => Just(vec![]), 1 => prop::collection::vec(1u8..8, 1..=2)], prop::option::weighted(0.3, 1u8..6)),
+        (prop::bool::weighted(0.2), prop::option::weighted(0.08, (any::<u64>(), 70_000u32..400_000)), prop::bool::weighted(0.3), prop_oneof![3 => Just(vec![]), 1 => prop::collection::vec(1u8..8, 1..=2)], prop::option::weighted(0.3, 1u8..6), prop::bool::weighted(0.2), prop::option::weighted(0.1, 33u32..=70), prop::bool::weighted(0.3)),
     )
-        .prop_map(|(delete_roller, count, base_kind, pat, init_kind, init, by, rolls, act, (cross_device, big, leftovers, wipe_before, env_switch_before))| {
+        .prop_map(|(delete_roller, count, base_kind, pat, init_kind, init, by, rolls, act, (cross_device, big, leftovers, wipe_before, env_switch_before, active_symlink, wide, lookalikes))| {
+            let count = wide.unwrap_or(count);
             let base: u32 = match base_kind {
                 0 => 0,
                 1 => 1,
@@ -192,6 +203,9 @@ pub fn strategy() -> impl Strategy<Value = Case> {
                 leftovers,
                 wipe_before,
                 env_switch_before,
+                active_symlink,
+                wide,
+                lookalikes,
             }
         })
 }
@@ -243,6 +257,17 @@ fn check_in(dir: &Path, case: &Case, obs: &mut Obs) -> CaseResult {
         }
         write_file(&dir.join(n), b);
         protected.push(n.clone());
+    }
+    if case.lookalikes && !case.delete_roller {
+        for (k, s) in ["007", "+3", "03", "3 ", " 3", "0x3", "1e1", "\u{663}", "-1", "3.0"].iter().enumerate() {
+            let n = expand_ref(&case.pattern.replace("{}", s), &lookup);
+            let clash = (-4..c + 8).any(|o| (case.base as i64 + o) >= 0 && name(o) == n) || n == active_key || n.starts_with('/');
+            if clash || std::fs::symlink_metadata(dir.join(&n)).is_ok() || dir.join(&n).parent().map_or(false, |p| p.is_file()) {
+                continue;
+            }
+            write_file(&dir.join(&n), format!("look-alike #{}", k).as_bytes());
+            protected.push(n);
+        }
     }
     for d in &case.bystander_dirs {
         std::fs::create_dir_all(dir.join(d)).unwrap();
@@ -301,7 +326,17 @@ fn check_in(dir: &Path, case: &Case, obs: &mut Obs) -> CaseResult {
                 exact = true; // an empty window is gap-free
             }
         }
-        write_file(&active, content);
+        if case.active_symlink {
+            let target = dir.join(format!("linked-data/app-{}.log", ri));
+            write_file(&target, content);
+            if let Some(parent) = active.parent() {
+                std::fs::create_dir_all(parent).unwrap();
+            }
+            let _ = std::fs::remove_file(&active);
+            std::os::unix::fs::symlink(&target, &active).unwrap();
+        } else {
+            write_file(&active, content);
+        }
         #[allow(unused_mut)]
         let mut leftover_names: Vec<std::ffi::OsString> = vec![];
         #[cfg(feature = "bg")]
@@ -315,7 +350,7 @@ fn check_in(dir: &Path, case: &Case, obs: &mut Obs) -> CaseResult {
                 leftover_names.push(p.file_name().unwrap().to_os_string());
             }
         }
-        let before = snap(dir);
+        let before = snap_following_links(dir);
         let res = catch(|| roller.roll(&active));
         #[cfg(feature = "bg")]
         {
@@ -332,8 +367,8 @@ fn check_in(dir: &Path, case: &Case, obs: &mut Obs) -> CaseResult {
             Ok(Ok(())) => {}
         }
         obs.sub_evals += 1;
-        let after = snap(dir);
-        ensure!(!active.exists(), "C07:rolled-file-remains", "roll #{}: the rolled file still exists at its original path", ri);
+        let after = snap_following_links(dir);
+        ensure!(std::fs::symlink_metadata(&active).is_err(), "C07:rolled-file-remains", "roll #{}: the rolled file still exists at its original path{}", ri, if active.exists() { "" } else { " (as a symbolic link that leads nowhere)" });
         // window contents before/after by ascending offset
         let window = |s: &Snap| -> Vec<(i64, Vec<u8>)> { (0..c).filter_map(|o| s.files.get(&name(o)).map(|b| (o, b.clone()))).collect() };
         let wb = window(&before);
@@ -418,6 +453,9 @@ fn check_in(dir: &Path, case: &Case, obs: &mut Obs) -> CaseResult {
     #[cfg(feature = "bg")]
     obs.class_if(case.leftovers && alt.is_none() && !case.delete_roller, "temp-file-look-alikes-present");
     obs.class_if(alt.is_some(), "rolled-file-on-another-filesystem");
+    obs.class_if(case.active_symlink, "rolled-file-is-a-symbolic-link");
+    obs.class_if(case.wide.is_some(), "window-of-33-to-70");
+    obs.class_if(case.lookalikes, "index-look-alike-bystanders");
     obs.class_if(case.initial.iter().any(|(o, _)| *o < 0 || *o >= c), "archives-outside-window");
     Ok(())
 }
@@ -465,7 +503,7 @@ pub fn run(run: &Run) {
         // one roller through 400 successive rolls (more than any 8-bit bookkeeping can count)
         for (count, pattern) in [(3u32, "a.{}.log"), (5, "arch/{}/a.log.gz")] {
             let rolls: Vec<Vec<u8>> = (0..400u32).map(|i| format!("roll {}\n", i).into_bytes()).collect();
-            run.eval_one("rolls", &Case { delete_roller: false, base: 1, count, pattern: pattern.to_string(), initial: vec![], bystanders: vec![("other.txt".into(), b"keep".to_vec())], bystander_dirs: vec![], active: "active.log".into(), rolls, cross_device: false, big: None, leftovers: false, wipe_before: vec![120, 250], env_switch_before: None }, &f);
+            run.eval_one("rolls", &Case { delete_roller: false, base: 1, count, pattern: pattern.to_string(), initial: vec![], bystanders: vec![("other.txt".into(), b"keep".to_vec())], bystander_dirs: vec![], active: "active.log".into(), rolls, cross_device: false, big: None, leftovers: false, wipe_before: vec![120, 250], env_switch_before: None, active_symlink: false, wide: None, lookalikes: false }, &f);
         }
     }
     run.note(format!("build: {}", if cfg!(feature = "bg") { "background_rotation" } else { "foreground rotation" }));
